@@ -22,6 +22,7 @@ one() {
   rc=$?
   what=$(grep -E '^failing clause|^BROKEN' $V/build/seedmatrix/$id.log | head -2 | cut -c1-160 | tr '\n' ' ')
   viol=$(grep -E '^VIOLATION' $V/build/seedmatrix/$id.log | head -1 | sed 's#replay=[^ ]*##')
+  cp $d/verif/replays/$prop-*.jsonl $V/build/seedmatrix/$id.$prop.replay.jsonl 2>/dev/null
   echo "$id $prop rc=$rc $viol :: $what"
   git -C /repo worktree remove --force $d/repo >/dev/null 2>&1; rm -rf $d
 }
